@@ -461,7 +461,12 @@ RULES["R02.5"] += " | batch-prediction: predict_batch = predict of every input i
 RULES["R02.1"] += " | entries-stay-in-place (who-may-permute): over every function of the property's modules, no Vec/slice operation that moves entries to other positions (reverse, swap, rotate, sort .., mem::swap of two entries) outside the table of sites confirmed on the pinned tree (common.PERMUTING_SITES)"
 
 
+RULES["R02.1"] += " | returned-as-computed: on the E6 value of every non-panicking path of the four layer forwards, the only straight-line in-place changes of the results are appends, the bias addition and dropout (each judged by its own rule); no entry of the output or of the max-pool index record is assigned, dropped or moved after the loops"
+
+
 def run(ctx):
+    from .common import returned_as_computed
+    ctx.guard("R02.1", "returned-as-computed", returned_as_computed, ctx, "R02.1", {"src/dense.rs", "src/convolution.rs", "src/deconvolution.rs", "src/maxpool.rs"}, lambda p_, l_: l_ == "forward", ("hadamard", "add_inplace", "dropout"), 4)
     from .common import no_permuting_ops
     ctx.guard("R02.1", "entries-stay-in-place", no_permuting_ops, ctx, "R02.1", "layers-forward", {"src/dense.rs", "src/convolution.rs", "src/deconvolution.rs", "src/maxpool.rs"}, 15, lambda p_, l_: "backward" in l_ or "gradient" in l_ or l_ == "rotate")
     ctx.guard("R02.4", "linear-algebra", dense_linear_algebra, ctx)
